@@ -280,6 +280,12 @@ def run_case(case: dict[str, Any]) -> dict[str, Any]:
                 m.event(f[2], f[3], f[4], f[0])
             if any(last['t'] < f[0] for f in fed):
                 continue
+            # ... and everything delivered by then has been PROCESSED by then: under a worker limit the events of other objects wait for a free worker
+            # (an idle worker keeps its slot for the idle timeout), so "delivered long ago" does not mean "seen" yet
+            probed = {(p['uid'], str(p['rv'])) for p in ps}
+            if any(f[3] is not None and (f[4]['metadata']['uid'], str(f[4]['metadata'].get('resourceVersion'))) not in probed for f in fed):
+                cov['unsettled_points_skipped'] = cov.get('unsettled_points_skipped', 0) + 1
+                continue
             want = m.view()
             got = {h: last['idx'].get(h, {}) for h in specs}
             cov['snapshots_compared'] += 1
